@@ -518,7 +518,7 @@ def render_item(repo: Repo, rel, kind, name, opts, rules: Counter, info: dict) -
     text, line = repo.find_item(rel, kind, name)
     # D4/D1: strip attributes and doc comments inside the item; derives are reduced to the
     # marker traits Verus understands (Debug always, Clone/Copy on request)
-    keep = {'Debug'}
+    keep = set() if 'no-debug' in opts else {'Debug'}
     for o in opts:
         if o.startswith('derive='):
             keep |= set(o[7:].split(','))
